@@ -40,6 +40,9 @@ def install(reg):
         dulwichmodels.install(reg)
     except ImportError:
         pass
+    from . import configmodels
+
+    configmodels.install(reg)
     try:
         from . import xmlmodels
 
